@@ -194,7 +194,10 @@ Definition dispatch (cmd : string) (args : list sexp) : option sexp :=
       end
   | "cat-out", [SZ n_out; sizes] =>
       option_map (fun sizes => SL [enc_list (enc_pair enc_Z enc_Z) (cat_out_slices n_out 0 sizes);
-                                   enc_list (enc_pair enc_Z enc_Z) (cat_spec_slices sizes)]) (dec_list dec_Z sizes)
+                                   enc_list (enc_pair enc_Z enc_Z) (cat_spec_slices sizes);
+                                   SA (match cat_out_result n_out sizes with
+                                       | CatRaises => "raises" | CatOutUnchanged => "out-unchanged" | CatWritten => "written" end)])
+                 (dec_list dec_Z sizes)
   | "cat", [ts; SZ d] =>
       match dec_list dec_tree ts with
       | Some l => Some (if (d <? 0)%Z then SA "raised" else enc_res (enc_arr (flat_map leaves l)) (m_cat l (Z.to_nat d)))
